@@ -192,12 +192,18 @@ def gaussianActive (sigma : Option α) : Option α :=
   | none => none
   | some s => if s = 0 then none else some s
 
+/-- `T.apply_mask(kspace, acs_mask, return_mask=False)` = `torch.where(mask == 0, 0.0, kspace)`: entries off the
+mask are exactly `0` whatever the data (also `±inf`), entries on the mask are the data unchanged (no
+multiplication by the mask value) -/
+def maskPixels (m : Nat → α) (S : SMap α) : SMap α :=
+  S.map fun coil => coil.mapIdx fun p c => if m p = 0 then ((0 : α), (0 : α)) else c
+
 /-- the masked (and weighted) k-space of `estimate_acs_image`; `W` = size of the width axis (dim -2), the
 column of the flattened pixel `p` is `p % W` -/
 def acsKspace (num : Num α) (wn : WinNum α) (sigma : Option α) (W : Nat) (k : SMap α) (m : Nat → α) : SMap α :=
   match gaussianActive sigma with
-  | none => weightPixels m k
-  | some s => weightPixels (fun p => gaussWeight num wn s W (p % W)) (weightPixels m k)
+  | none => maskPixels m k
+  | some s => weightPixels (fun p => gaussWeight num wn s W (p % W)) (maskPixels m k)
 
 /-- `estimate_acs_image`: the backward operator `B` (inverse FFT) is arbitrary -/
 def estimateAcsImage (num : Num α) (wn : WinNum α) (B : SMap α → SMap α) (sigma : Option α) (W : Nat)
@@ -296,7 +302,11 @@ def windowGuardClauses : List String := ["not self.gaussian_sigma", "self.gaussi
 
 /-- `acsKspace`: mask only / mask and window -/
 def windowProducts : String × String :=
-  ("kspace_data * sample['acs_mask'] + 0.0", "kspace_data * sample['acs_mask'] * gaussian_mask + 0.0")
+  ("T.apply_mask(kspace_data, sample['acs_mask'], return_mask=False)",
+   "T.apply_mask(kspace_data, sample['acs_mask'], return_mask=False) * gaussian_mask")
+
+/-- `maskPixels`: the `torch.where` of `apply_mask` — (condition, value where it holds, value elsewhere) -/
+def applyMaskWhere : String × String × String := ("mask == 0", "0", "kspace")
 
 /-- the options `build_mri_transforms` must hand through unchanged -/
 def passthroughRequired : List (String × String) :=
